@@ -452,9 +452,83 @@ pub fn start_watchdog(pid: &'static str) {
     });
 }
 
+// ---------------------------------------------------------------------------------------------
+// A load that takes the process down (stack overflow -> abort) is a verdict, not a machinery failure:
+// every thread keeps, ready to be written with plain write(2) calls from the SIGABRT / SIGSEGV handler,
+// the VIOLATION line, the key line, the replay text and the partial evidence for the project it is loading.
+// ---------------------------------------------------------------------------------------------
+
+struct CrashBufs {
+    stdout_line: Vec<u8>,
+    stderr_line: Vec<u8>,
+    replay: Vec<u8>,
+    evidence: Vec<u8>,
+}
+thread_local! {
+    static CRASH: std::cell::RefCell<Option<CrashBufs>> = const { std::cell::RefCell::new(None) };
+}
+static CRASH_PATHS: std::sync::OnceLock<(std::ffi::CString, std::ffi::CString, &'static str)> = std::sync::OnceLock::new();
+
+extern "C" fn crash_handler(_sig: libc::c_int) {
+    // only async-signal-safe calls from here on
+    let _ = CRASH.try_with(|c| {
+        if let (Ok(c), Some((replay_path, evidence_path, _))) = (c.try_borrow(), CRASH_PATHS.get()) {
+            if let Some(b) = c.as_ref() {
+                unsafe {
+                    libc::write(1, b.stdout_line.as_ptr() as *const libc::c_void, b.stdout_line.len());
+                    libc::write(2, b.stderr_line.as_ptr() as *const libc::c_void, b.stderr_line.len());
+                    for (path, data) in [(replay_path, &b.replay), (evidence_path, &b.evidence)] {
+                        let fd = libc::open(path.as_ptr(), libc::O_WRONLY | libc::O_CREAT | libc::O_TRUNC, 0o644);
+                        if fd >= 0 {
+                            libc::write(fd, data.as_ptr() as *const libc::c_void, data.len());
+                            libc::close(fd);
+                        }
+                    }
+                    libc::_exit(1);
+                }
+            }
+        }
+    });
+    unsafe { libc::_exit(134) }
+}
+
+pub fn install_crash_reporter(pid: &'static str) {
+    let root = vmodel::report::verif_root();
+    let rdir = root.join("replays").join(pid);
+    let edir = root.join("work").join("partial").join(pid);
+    let _ = std::fs::create_dir_all(&rdir);
+    let _ = std::fs::create_dir_all(&edir);
+    let replay = std::ffi::CString::new(rdir.join("crash.txt").display().to_string()).unwrap();
+    let evidence = std::ffi::CString::new(edir.join(format!("{}-crash.json", engine_name("L1"))).display().to_string()).unwrap();
+    let _ = CRASH_PATHS.set((replay, evidence, pid));
+    unsafe {
+        libc::signal(libc::SIGABRT, crash_handler as usize);
+    }
+}
+
+fn arm_crash_report(desc: &str) {
+    let Some((replay_path, _, pid)) = CRASH_PATHS.get() else { return };
+    let short = vmodel::report::truncate(desc, 600).replace('\n', " ");
+    let ev = serde_json::json!({
+        "property_id": pid, "tier": std::env::var("VERIF_TIER").unwrap_or_else(|_| "quick".into()), "seed": 0, "level": "model_checking",
+        "coverage": {"rule": "run aborted: loading a project took the process down (stack overflow / abort), reported as a violation", "exhaustive": false, "evaluations": 1, "distinct_nontrivial": 1, "states": 1, "transitions": 1, "traces_validated_against_impl": 1, "samples": [{"project": short}]},
+        "assumptions": [], "wall_s": 0.0, "violations": 1,
+    });
+    let bufs = CrashBufs {
+        stdout_line: format!("VIOLATION property={pid} replay={}\n", replay_path.to_string_lossy()).into_bytes(),
+        stderr_line: format!("  key: {pid}: loading takes the process down (stack overflow / abort) :: {short}\n").into_bytes(),
+        replay: desc.as_bytes().to_vec(),
+        evidence: serde_json::to_vec_pretty(&ev).unwrap_or_default(),
+    };
+    CRASH.with(|c| *c.borrow_mut() = Some(bufs));
+}
+
 pub fn run_project(p: &Project, dir: &Path, o: WriteOpts) -> Outcome {
     if let Err(e) = p.materialise(dir, o) {
         vmodel::report::machinery_fail(&format!("cannot materialise project in {}: {e}", dir.display()));
+    }
+    if CRASH_PATHS.get().is_some() {
+        arm_crash_report(&p.describe());
     }
     let key = dir.display().to_string();
     {
